@@ -143,7 +143,7 @@ def run_property(pid, tier, seed):
     # ---- 4. correspondence --------------------------------------------------
     eng = Engine(pid)
     try:
-        lib, model, diffs, compared = eng.run_all(cases, cfg.get("filter"))
+        lib, model, diffs, compared = eng.run_all(cases, cfg.get("filter"), cfg.get("comparators"))
     except build.BuildError as e:
         violations.append(("engine", {"property": pid, "what": "harness or runner crashed", "detail": str(e)[-3000:]}, False))
         lib, model, diffs, compared = {}, {}, [], 0
@@ -251,7 +251,7 @@ def replay(path):
     cfg = registry.PROPS[pid]
     c = Case.from_json(j["case"])
     eng = Engine("replay")
-    lib, model, diffs, compared = eng.run_all([c], cfg.get("filter"))
+    lib, model, diffs, compared = eng.run_all([c], cfg.get("filter"), cfg.get("comparators"))
     eng.cleanup()
     lo = lib.get(c.id, {}).get("obs", {})
     fails = []
